@@ -496,6 +496,27 @@ C17 = dict(
 FAMILIES["C16"] = C16
 FAMILIES["C17"] = C17
 
+# ---- random strictly valid policy sets (gen_typed.rs) through the same TLC generators and trace specifications
+import randpols
+_RAND_NOTE = (" R: additionally %s random strictly valid policy sets (1-3 policies; type-directed generator over Sc2: attribute / tag / record / "
+              "entity-reference chains with and without guards in capability-carrying shapes, arithmetic near the i64 bounds, sets, membership, is, if-then-else, every scope "
+              "form) drawn per run from the seed, combined by the same TLC generator with its coordinates and judged by the same trace specification.")
+C14["models"] += [
+    dict(name="mc_tpe_rand", module="MC_Tpe.tla", cfg=dict(quick="MC_Tpe.cfg", thorough="MC_Tpe.cfg"), pre=randpols.pre(dict(quick=60, thorough=400)),
+         cases=_tpe_case, setup=_tpe_setup, limit=dict(quick=500, thorough=12000)),
+    dict(name="mc_query_rand", module="MC_Query.tla", cfg=dict(quick="MC_Query.cfg", thorough="MC_Query.cfg"), family="query",
+         pre=randpols.pre(dict(quick=60, thorough=400)),
+         cases=lambda world, c, i: dict(id=i, pols=c["pols"], base=c["base"]), setup=_tpe_setup, limit=dict(quick=500, thorough=12000)),
+]
+C14["rule"] += _RAND_NOTE % "60 (quick) / 400 (thorough)"
+C15["models"] += [dict(name="mc_batched_rand", module="MC_Batched.tla", cfg=dict(quick="MC_Batched.cfg", thorough="MC_Batched.cfg"),
+                       pre=randpols.pre(dict(quick=80, thorough=600)), cases=_batched_case, setup=_tpe_setup, limit=dict(quick=900, thorough=None))]
+C15["rule"] += _RAND_NOTE % "80 (quick) / 600 (thorough)"
+for _fam in (C16, C17):
+    _fam["models"] = _fam["models"] + [dict(name="mc_slice_rand", module="MC_Slice.tla", cfg=dict(quick="MC_Slice.cfg", thorough="MC_Slice.cfg"),
+                                            pre=randpols.pre(dict(quick=150, thorough=1500)), cases=_slice_case, setup=_slice_setup)]
+    _fam["rule"] += _RAND_NOTE % "150 (quick) / 1500 (thorough)"
+
 
 # ----------------------------------------------------------------- C19
 def _ffi_case(world, c, i):
@@ -616,6 +637,9 @@ C18 = dict(
     assumptions=["no SMT solver is involved: only literal environments, for which the asserts must be ground",
                  "extension-typed attributes are not in schema Sc2"],
 )
+C18["models"] += [dict(name="mc_symcc_rand", module="MC_Symcc.tla", cfg=dict(quick="MC_Symcc.cfg", thorough="MC_Symcc.cfg"),
+                       pre=randpols.pre(dict(quick=60, thorough=600)), cases=_symcc_case, setup=_tpe_setup, limit=dict(quick=150, thorough=None))]
+C18["rule"] += _RAND_NOTE % "60 (quick) / 600 (thorough)"
 FAMILIES["C18"] = C18
 
 
